@@ -8,6 +8,7 @@ CONSTANTS
   Delays = {0}
   StartBacks = {2, 9}
   MarkerModes = {TRUE, FALSE}
+  HeadModes = {FALSE}
   Windows = {3}
   Modes = {"all"}
   MaxLoss = 1
@@ -19,7 +20,7 @@ CONSTANTS
   HoldFors = {0}
   Situations = FALSE
   Algo = "ring"
-  Impl = "asis"
+  Impl = "pinned"
   Sampling = FALSE
 INIT Init
 NEXT Next
